@@ -181,7 +181,7 @@ class Gen:
             k = r.choices(kinds, wts)[0]
             if k == 'add_asset':
                 t = r.choice(self.concrete)
-                name = r.choice(['A', 'A', 'B', 'A:2', 'B:1', None, f'n{self.na}', f'n{self.na}'])
+                name = r.choice(['A', 'A', 'B', 'A:2', 'B:1', None, None, f'n{self.na}', f'n{self.na}', f'{r.choice(self.concrete)}:{r.randint(0, 5)}'])
                 aid = None
                 if r.random() < 0.4:
                     aid = r.choice([0, 0, self.next + r.randint(0, 2), r.randint(-2, 6), r.choice(sorted(self.used_ids) or [1])])
